@@ -1,60 +1,59 @@
-(* C04 -- property theorems only (selection returns exactly the addressed columns, for every block layout). *)
-Require Import SF.Prelude SF.PySlice SF.Dtype SF.PyDyn SF.Blocks Gen.Gen_type_blocks
-  Proofs.SliceFacts Proofs.BlocksSelect Proofs.BlocksRefine.
+(* C04 -- property theorems only (selection returns exactly the addressed rows/columns with their labels,
+   for every block layout).  The models follow /repo after the fix commits c6f9ada, 231a672, ecbc9f2,
+   b1181bc, b79f40c, dfbaa1d; no theorem below carries a guard for a known finding any more. *)
+Require Import SF.Prelude SF.PySlice SF.Dtype SF.PyDyn SF.Value SF.Blocks SF.Select SF.SelectDt
+  Gen.Gen_util Gen.Gen_type_blocks Gen.Gen_c04
+  Proofs.SliceFacts Proofs.BlocksSelect Proofs.BlocksRefine Proofs.SelectBundles Proofs.SelectFacts
+  Proofs.SelectExtract Proofs.SelectLoc Proofs.SelectLocExtract Proofs.SelectIncl Proofs.SelectSpec
+  Proofs.SelectDecision.
 
 (* Column selection as TypeBlocks performs it -- directory lookup, bundling of adjacent columns of one
-   block into slices (_indices_to_contiguous_pairs, _cols_to_slice), slicing each block -- returns,
-   for EVERY block layout and every key (int, slice, integer list, Boolean mask, all), exactly the
-   columns at the key's positions, in key order, each with its own dtype; and the same error otherwise. *)
+   block into slices while the bundle keeps its direction (_indices_to_contiguous_pairs as repaired by
+   ecbc9f2, _cols_to_slice), slicing each block -- returns, for EVERY block layout and EVERY key (int,
+   slice, integer list WITH REPEATED POSITIONS, Boolean mask, all), exactly the columns at the key's
+   positions, in key order, each with its own dtype; and the same error otherwise.  No uniqueness guard. *)
 Theorem C04_select_columns_exact : forall (A : Type) (t : tb A) (k : ckey), wf_tb t ->
-  key_nodup k (Z.of_nat (length (flatten t))) ->
-  res_map flatten (M_select_columns t k) = S_select_columns (flatten t) k.
-Proof. exact @select_columns_refines. Qed.
+  res_map flatten (M_select_columns_dir t k) = S_select_columns (flatten t) k.
+Proof. exact @select_columns_dir_refines. Qed.
 Print Assumptions C04_select_columns_exact.
 
-(* The typed bundling kernel the theorem above is about IS the source text of TypeBlocks._cols_to_slice
+(* on keys that do not repeat a position the repaired bundling selects what the rule before the fix
+   (SF.Blocks.M_select_columns, still used by other properties' models) selected *)
+Theorem C04_select_columns_agrees_with_old_rule : forall (A : Type) (t : tb A) (k : ckey), wf_tb t ->
+  key_nodup k (Z.of_nat (length (flatten t))) ->
+  res_map flatten (M_select_columns_dir t k) = res_map flatten (M_select_columns t k).
+Proof. exact @select_columns_dir_agrees_with_old. Qed.
+Print Assumptions C04_select_columns_agrees_with_old_rule.
+
+(* The typed bundling kernel the theorems are about IS the source text of TypeBlocks._cols_to_slice
    (regenerated from /repo on every run). *)
 Theorem C04_cols_to_slice_is_source : forall l : list Z, l <> [] ->
   cols_to_slice (of_zlist l) = of_slice (cols_to_slice_t l).
 Proof. exact cols_to_slice_refines. Qed.
 Print Assumptions C04_cols_to_slice_is_source.
 
-Require Import SF.Select Proofs.SelectFacts Proofs.SelectExtract.
-
 (* THE 2-D SELECTION.  Frame._extract as the code runs it -- TypeBlocks._extract (integer-column fast path,
-   or _key_to_block_slices + per-block NumPy slicing + the single_row re-shaping + from_blocks), the
-   extraction of both indices, and the Frame / Series / element decision tree on the resulting shape --
-   returns, for EVERY block layout, every row key and every column key, exactly what the specification
-   says on the flattened frame: the cells at (row position, column position) for the key's positions in
-   key order, each with its own row and column label, a scalar key removing its axis; the same error
-   class otherwise.  Guards: the column key does not repeat a position (through the public interface a
-   repeated column raises ErrorInitIndex; Refuted/C04.v shows the block walk is wrong there), and
-   extract_dom excludes the known finding C04-empty-columns-row-subset. *)
+   or _key_to_block_slices + per-block NumPy slicing + the single_row re-shaping + from_blocks with the
+   selected row count as shape reference), the extraction of both indices, and the Frame / Series /
+   element decision tree on the resulting shape -- returns, for EVERY block layout, EVERY row key and
+   EVERY column key, exactly what the specification says on the flattened frame: the cells at (row
+   position, column position) for the key's positions in key order, each with its own row and column
+   label, a scalar key removing its axis; the same error class otherwise (a key repeating a position:
+   ErrorInitIndex, labels are unique).  The only hypothesis is the Frame invariant. *)
 Theorem C04_extract_refines : forall (A L : Type) (leqb : L -> L -> bool) (rdt : list dtype -> dtype)
   (f : mframe A L) (rk ck : ckey),
   wf_mframe leqb f ->
-  key_nodup ck (Z.of_nat (length (flatten (mf_blocks f)))) ->
-  extract_dom (mf_rows f) (Z.of_nat (length (flatten (mf_blocks f)))) rk ck = true ->
   M_extract leqb rdt f rk ck = S_extract leqb rdt (abs_frame f) rk ck.
 Proof. exact @extract_refines. Qed.
 Print Assumptions C04_extract_refines.
 
-Require Import Proofs.SelectAllKeys.
-
-(* ... and for EVERY column key, repeated positions included: through the Frame interface a column key that
-   repeats a position raises ErrorInitIndex (column labels are unique) in the implementation model --
-   whatever the block walk made of the repeated positions, see Refuted/C04.v -- and in the specification.
-   Only label reflexivity is needed.  The one guard left is the known finding C04-empty-columns-row-subset. *)
-Theorem C04_extract_refines_all_keys : forall (A L : Type) (leqb : L -> L -> bool) (rdt : list dtype -> dtype),
-  (forall x, leqb x x = true) ->
-  forall (f : mframe A L) (rk ck : ckey),
-  wf_mframe leqb f ->
-  extract_dom (mf_rows f) (Z.of_nat (length (flatten (mf_blocks f)))) rk ck = true ->
-  M_extract leqb rdt f rk ck = S_extract leqb rdt (abs_frame f) rk ck.
-Proof. exact @extract_refines_all_keys. Qed.
-Print Assumptions C04_extract_refines_all_keys.
-
-Require Import SF.Value SF.SelectDt Gen.Gen_util Proofs.SelectLoc Proofs.SelectIncl Proofs.SelectSpec.
+(* the Frame / Series / which-index / which-name decision inside M_extract IS the source text of
+   Frame._extract (frame.py:3823-3869), regenerated on every run: a change to that chain (a swapped axis,
+   another shape test, another values expression) breaks this theorem before any case is run *)
+Theorem C04_decision_is_source : forall (r c : Z) (nm0 nm1 : bool),
+  extract_decision r c nm0 nm1 = extract_decision_src r c nm0 nm1.
+Proof. exact decision_is_source. Qed.
+Print Assumptions C04_decision_is_source.
 
 (* WHAT THE SPECIFICATION SAYS, cell by cell.  A selection with two non-scalar keys is a Frame whose cell
    (i, j) is the cell of the source at (i-th position of the row key, j-th position of the column key),
@@ -95,39 +94,70 @@ Proof. exact @scalar_reduces. Qed.
 Print Assumptions C04_scalar_reduces.
 
 (* LABEL SELECTION = POSITIONAL SELECTION AT THE LABEL POSITIONS.  For an index with a dictionary
-   (LocMap.loc_to_iloc: label, list, inclusive slice, Boolean array, Boolean Series reindexed with False,
-   ILoc) the positional key the code builds denotes exactly the positions the specification assigns to
-   the label key; same error otherwise.  Guard lkey_dom: not (negative step with a stop label) -- known
-   finding C04-label-slice-negative-step. *)
+   (LocMap.loc_to_iloc: label, list, inclusive slice walking up or down, Boolean array, Boolean Series
+   reindexed with False, ILoc) the positional key the code builds denotes exactly the positions the
+   specification assigns to the label key -- EVERY label key; same error otherwise. *)
 Theorem C04_loc_map_refines : forall (L : Type) (leqb : L -> L -> bool),
   (forall x y, leqb x y = true <-> x = y) ->
-  forall (labels : list L) (k : lkey L), lkey_dom k ->
+  forall (labels : list L) (k : lkey L),
   (ck <- M_loc_map leqb labels k;; ckey_sel ck (Z.of_nat (length labels))) = S_loc leqb labels k.
 Proof. exact @loc_map_refines. Qed.
 Print Assumptions C04_loc_map_refines.
 
-(* The auto-integer index (loc_is_iloc fast path, with the regenerated slice_to_inclusive_slice): right
-   exactly when every integer the key names is a label (auto_dom) -- known finding
-   C04-autoindex-unvalidated-int otherwise. *)
+(* The auto-integer index (loc_is_iloc fast path as validated by fix 231a672, with the regenerated
+   slice_to_inclusive_slice): labels are 0..n-1; integers outside that range and non-integers are rejected
+   as absent labels.  Only hypothesis on the key: the ends of a slice are numbers (the code raises TypeError
+   instead of a lookup error for 'a':'b' on an auto index). *)
 Theorem C04_loc_auto_refines : forall (L : Type) (leqb : L -> L -> bool),
   (forall x y, leqb x y = true <-> x = y) ->
   forall (as_z : L -> option Z) (of_z : Z -> L),
   (forall z, as_z (of_z z) = Some z) -> (forall x z, as_z x = Some z -> x = of_z z) ->
-  forall (n : nat) (k : lkey L), auto_dom as_z n k ->
+  forall (n : nat) (k : lkey L), auto_slice_ints as_z k ->
   (ck <- M_loc_auto leqb as_z (auto_labels of_z n) k;; ckey_sel ck (Z.of_nat n)) = S_loc leqb (auto_labels of_z n) k.
 Proof. exact @loc_auto_refines. Qed.
 Print Assumptions C04_loc_auto_refines.
 
-(* the typed kernel the auto-index model uses IS util.slice_to_inclusive_slice (regenerated every run) ... *)
+(* END TO END.  Frame.loc[rkey, ckey] / Frame[ckey] as the code runs them -- both label keys translated by
+   LocMap (column key first), then Frame._extract over the blocks -- equal the specification: positional
+   selection at the positions of the labels, for every block layout.  Only guard: not both keys malformed
+   (which error comes first is not modelled). *)
+Theorem C04_extract_loc_refines : forall (A L : Type) (leqb : L -> L -> bool) (rdt : list dtype -> dtype)
+  (as_z : L -> option Z),
+  (forall x y, leqb x y = true <-> x = y) ->
+  forall (f : mframe A L) (rkey ckey_ : lkey L),
+  wf_mframe leqb f ->
+  ((exists rk, M_loc_map leqb (mf_index f) rkey = Ok rk) \/
+   (forall ck, M_loc_map leqb (mf_columns f) ckey_ = Ok ck ->
+      exists cs, ckey_sel ck (Z.of_nat (length (mf_columns f))) = Ok cs)) ->
+  M_extract_loc leqb rdt as_z KMap KMap f rkey ckey_ = S_extract_loc leqb rdt (abs_frame f) rkey ckey_.
+Proof. exact @extract_loc_refines. Qed.
+Print Assumptions C04_extract_loc_refines.
+
+(* Series.loc / Series[]: the translated key handed to NumPy and to Index.iloc selects the labels' positions *)
+Theorem C04_series_loc_refines : forall (A L : Type) (leqb : L -> L -> bool) (as_z : L -> option Z),
+  (forall x y, leqb x y = true <-> x = y) ->
+  forall (s : sseries A L) (k : lkey L),
+  M_series_loc leqb as_z KMap s k = S_series_loc leqb s k.
+Proof. exact @series_loc_refines. Qed.
+Print Assumptions C04_series_loc_refines.
+
+(* the label-equality hypothesis of the theorems above holds at the instance the correspondence evaluates *)
+Theorem C04_label_equality_at_val : forall x y : val, val_eqb x y = true <-> x = y.
+Proof. exact val_eqb_spec. Qed.
+Print Assumptions C04_label_equality_at_val.
+
+(* the typed kernel the label-translation models use IS util.slice_to_inclusive_slice (regenerated every run) ... *)
 Theorem C04_inclusive_slice_is_source : forall (k : slice) (off : Z),
   slice_to_inclusive_slice (of_slice k) (PInt off) = of_slice (incl_typed k off).
 Proof. exact incl_typed_refines. Qed.
 Print Assumptions C04_inclusive_slice_is_source.
 
-(* ... and it includes the stop: positions a .. b with b selected *)
-Theorem C04_inclusive_slice_includes_stop : forall a b n : Z, 0 <= a -> a <= b -> b < n ->
-  exists ps, positions (incl_typed (mk_slice (Some a) (Some b) None) 0) n = Some ps /\
-             In b ps /\ (forall p, In p ps <-> a <= p <= b).
+(* ... and it includes the stop: positions a .. b with b selected, walking up and walking down *)
+Theorem C04_inclusive_slice_includes_stop : forall a b n : Z, 0 <= a < n -> 0 <= b < n ->
+  (a <= b -> exists ps, positions (incl_typed (mk_slice (Some a) (Some b) None) 0) n = Some ps /\
+                        In b ps /\ (forall p, In p ps <-> a <= p <= b)) /\
+  (b <= a -> exists ps, positions (incl_typed (mk_slice (Some a) (Some b) (Some (-1))) 0) n = Some ps /\
+                        In b ps /\ (forall p, In p ps <-> b <= p <= a)).
 Proof. exact inclusive_slice_includes_stop. Qed.
 Print Assumptions C04_inclusive_slice_includes_stop.
 
@@ -175,46 +205,3 @@ Theorem C04_period_select : forall (labels : list val) (u : tunit) (c : Z),
     increasing ps.
 Proof. exact period_select. Qed.
 Print Assumptions C04_period_select.
-
-Require Import Gen.Gen_c04 Proofs.SelectDecision.
-
-(* the Frame / Series / which-index / which-name decision inside M_extract IS the source text of
-   Frame._extract (frame.py:3823-3869), regenerated on every run: a change to that chain (a swapped axis,
-   another shape test, another values expression) breaks this theorem before any case is run *)
-Theorem C04_decision_is_source : forall (r c : Z) (nm0 nm1 : bool),
-  extract_decision r c nm0 nm1 = extract_decision_src r c nm0 nm1.
-Proof. exact decision_is_source. Qed.
-Print Assumptions C04_decision_is_source.
-
-Require Import Proofs.SelectLocExtract.
-
-(* END TO END.  Frame.loc[rkey, ckey] / Frame[ckey] as the code runs them -- both label keys translated by
-   LocMap (column key first), then Frame._extract over the blocks -- equal the specification: positional
-   selection at the positions of the labels, for every block layout.  Guards: the two label-slice guards,
-   not both keys malformed, and the known finding C04-empty-columns-row-subset. *)
-Theorem C04_extract_loc_refines : forall (A L : Type) (leqb : L -> L -> bool) (rdt : list dtype -> dtype)
-  (as_z : L -> option Z),
-  (forall x y, leqb x y = true <-> x = y) ->
-  forall (f : mframe A L) (rkey ckey_ : lkey L),
-  wf_mframe leqb f -> lkey_dom rkey -> lkey_dom ckey_ ->
-  ((exists rk, M_loc_map leqb (mf_index f) rkey = Ok rk) \/
-   (forall ck, M_loc_map leqb (mf_columns f) ckey_ = Ok ck ->
-      exists cs, ckey_sel ck (Z.of_nat (length (mf_columns f))) = Ok cs)) ->
-  (forall rk ck, M_loc_map leqb (mf_index f) rkey = Ok rk -> M_loc_map leqb (mf_columns f) ckey_ = Ok ck ->
-     extract_dom (mf_rows f) (Z.of_nat (length (flatten (mf_blocks f)))) rk ck = true) ->
-  M_extract_loc leqb rdt as_z KMap KMap f rkey ckey_ = S_extract_loc leqb rdt (abs_frame f) rkey ckey_.
-Proof. exact @extract_loc_refines. Qed.
-Print Assumptions C04_extract_loc_refines.
-
-(* Series.loc / Series[]: the translated key handed to NumPy and to Index.iloc selects the labels' positions *)
-Theorem C04_series_loc_refines : forall (A L : Type) (leqb : L -> L -> bool) (as_z : L -> option Z),
-  (forall x y, leqb x y = true <-> x = y) ->
-  forall (s : sseries A L) (k : lkey L), lkey_dom k ->
-  M_series_loc leqb as_z KMap s k = S_series_loc leqb s k.
-Proof. exact @series_loc_refines. Qed.
-Print Assumptions C04_series_loc_refines.
-
-(* the label-equality hypothesis of the theorems above holds at the instance the correspondence evaluates *)
-Theorem C04_label_equality_at_val : forall x y : val, val_eqb x y = true <-> x = y.
-Proof. exact val_eqb_spec. Qed.
-Print Assumptions C04_label_equality_at_val.
